@@ -12,6 +12,7 @@ def circuitDispatch : Dispatch := fun op j =>
   | "permute" => some (Embed.opPermute j)
   | "circuit.matrix" => some (Embed.opCircuitMatrix j)
   | "circuit.history" => some (Embed.opCircuitHistory j)
+  | "sim.statevector" => some (Embed.opStatevector j)
   | "circuit.inverse" => some (Embed.opCircuitInverse j)
   | _ => none
 
